@@ -303,10 +303,12 @@ class TreeGen:
     def node(self, depth):
         rng = self.rng
         # reuse an earlier sub-tree: same object, or a structurally identical copy
-        if self.pool and rng.random() < 0.15:
+        if self.pool and rng.random() < 0.2:
             a = rng.choice(self.pool)
-            if rng.random() < 0.35 or not self.share:
+            if rng.random() < 0.45 or not self.share:
                 a = self.recopy(a)
+                if rng.random() < 0.45:
+                    a = self.class_variant(a)
             return a
         kind = rng.choice(self.classes)
         n_args = 1 if kind == "Not" else 2 if kind == "Imply" else rng.randint(1, self.max_arity)
@@ -353,6 +355,19 @@ class TreeGen:
         self._fix_next = None
         self.pool.append(ast)
         return ast
+
+    def class_variant(self, a):
+        """the same definition (id, sign, value, children) written with another class: All(x..) as AtLeast(n, x..),
+        Any as AtLeast(1, ..), AtMost(k) as AtLeast(-k, sign=-1), Xor as ExactlyOne.  The unchanged errors() rejects a model
+        that holds both spellings of one id, so such models only enter the valid stream if validation starts to accept them."""
+        b = dict(a)
+        c = a.get("c")
+        if c == "All" and a.get("args"): b.update(c="AtLeast", v=len(a["args"]))
+        elif c == "Any": b.update(c="AtLeast", v=1)
+        elif c == "AtMost": b.update(c="AtLeast", v=-a["v"], sign=-1)
+        elif c == "Xor": b.update(c="ExactlyOne")
+        elif c == "ExactlyOne": b.update(c="Xor")
+        return b
 
     def recopy(self, a):
         """structurally identical copy with fresh sharing keys (distinct Python objects, same ids)"""
